@@ -316,8 +316,32 @@ func (gb *genBatch) generate() {
 			gb.viol(p, "nondeterministic", "two runs on the same input produced different bytes (%d vs %d bytes; second run over an existing longer output file: %v)", len(src), len(src2), stale)
 		}
 		gb.r.Count("deterministic_pairs", 1)
+		// one invocation with two files: the same interface in two directories (api/v1, api/v2). A generator that takes one
+		// file only says so (usage message, non-zero exit) and is not judged; one that accepts several must treat each like a
+		// run of its own
+		if i%6 == 0 {
+			d1, d2 := filepath.Join(gb.dir, "multi", p.c.Dir, "v1"), filepath.Join(gb.dir, "multi", p.c.Dir, "v2")
+			os.MkdirAll(d1, 0755)
+			os.MkdirAll(d2, 0755)
+			os.WriteFile(filepath.Join(d1, "x.varlink"), []byte(p.c.Text), 0644)
+			os.WriteFile(filepath.Join(d2, "x.varlink"), []byte(p.c.Text), 0644)
+			outM, errM := goRun(gb.dir, 60*time.Second, gb.gen, filepath.Join(d1, "x.varlink"), filepath.Join(d2, "x.varlink"))
+			if errM != nil && strings.Contains(strings.ToLower(outM), "usage") {
+				gb.r.Count("multi_file_invocations_refused_with_usage", 1)
+			} else {
+				gb.r.Count("multi_file_invocations", 1)
+				for _, dd := range []string{d1, d2} {
+					b, rerr := os.ReadFile(filepath.Join(dd, p.pkgName+".go"))
+					if errM != nil || rerr != nil || !bytes.Equal(b, src) {
+						gb.viol(p, "multi-file-run", "the generator was given two files (the same interface in two directories): exit %v, output %q; %s: %d bytes, a run on that file alone writes %d bytes", errM, clip(outM, 200), dd, len(b), len(src))
+						break
+					}
+				}
+			}
+		}
 	})
 	os.RemoveAll(filepath.Join(gb.dir, "twice"))
+	os.RemoveAll(filepath.Join(gb.dir, "multi"))
 }
 
 var diagRx = regexp.MustCompile(`(?m)^(?:\./)?(p\d+)/[^:\s]+:\d+(?::\d+)?: (.*)$`)
@@ -868,7 +892,7 @@ func replayGen(prop string) func(r *fw.Run, raw json.RawMessage) {
 func init() {
 	fw.Register(&fw.Engine{
 		ID: "C07", Level: "translation_validation",
-		Rule: "programs = interface descriptions in the stated domain: 23 fixed special cases (typeless errors, dashes / upper case / xn-- / digits in the interface name, optional struct / optional array-of-struct / optional map-of-struct at parameter positions, CRLF and tab layouts, doc comments with backticks and with the words the import patcher looks for, all Go keywords and generator-local identifiers as field names, recursive aliases through containers, object everywhere, enums, 60 members), every type of nesting depth <= 2 over all constructors placed at method input, method output, error parameter, alias body and nested positions (quick: 60 seeded picks, thorough: all 1130), and seeded random descriptions (<= 20 members, depth <= 5) in 4 layouts. For each: the generator binary built from the tree under test runs twice in separate directories (exit status, stderr, one output file, package clause is the lower-cased interface name without characters illegal in a Go identifier, byte-identical second run (every other one over an existing, longer output file of the same name)); all outputs are compiled together with glue in one batch module against the tree's varlink package (go build, diagnostics attributed per package, failing packages dropped and the rest rebuilt); the batch binary reports VarlinkGetName() and VarlinkGetDescription() of every package, compared with the interface name and (up to trailing newlines) the description text. non-trivial = >= 2 members or a composite type; distinct by hash of the text. Further fixed cases: aliases of object (also forward references), aliases of builtins, 14-field lists, member names built from other member names with common prefixes.",
+		Rule: "programs = interface descriptions in the stated domain: 23 fixed special cases (typeless errors, dashes / upper case / xn-- / digits in the interface name, optional struct / optional array-of-struct / optional map-of-struct at parameter positions, CRLF and tab layouts, doc comments with backticks and with the words the import patcher looks for, all Go keywords and generator-local identifiers as field names, recursive aliases through containers, object everywhere, enums, 60 members), every type of nesting depth <= 2 over all constructors placed at method input, method output, error parameter, alias body and nested positions (quick: 60 seeded picks, thorough: all 1130), and seeded random descriptions (<= 20 members, depth <= 5) in 4 layouts. For each: the generator binary built from the tree under test runs twice in separate directories (exit status, stderr, one output file, package clause is the lower-cased interface name without characters illegal in a Go identifier, byte-identical second run (every other one over an existing, longer output file of the same name); one invocation with two files if the generator accepts that); all outputs are compiled together with glue in one batch module against the tree's varlink package (go build, diagnostics attributed per package, failing packages dropped and the rest rebuilt); the batch binary reports VarlinkGetName() and VarlinkGetDescription() of every package, compared with the interface name and (up to trailing newlines) the description text. non-trivial = >= 2 members or a composite type; distinct by hash of the text. Further fixed cases: aliases of object (also forward references), aliases of builtins, 14-field lists, member names built from other member names with common prefixes.",
 		Assumptions: []string{"the Go compiler is the oracle of 'compiles and type-checks'", "member names follow [A-Z][A-Za-z0-9]* and avoid the generator's fixed identifiers and Reply*/Dispatch* prefixes; field names are distinct after Go's exported-name mapping except in the fixed special case that probes exactly that"},
 		Run:         runC07, Replay: replayGen("C07"), CrashIsViolation: false, MinEvals: 20,
 		QuickTimeout: 20 * time.Minute, ThoroughTimeout: 90 * time.Minute,
